@@ -24,6 +24,14 @@ add('C02', 'model_checking',
     'TLA+ spec Stream.tla (SetDataType/GetDataType actions) model-checked by TLC; state-graph paths replayed on real goroutines through gate hooks; recorded executions validated by StreamTrace.tla',
     'All interleavings of 2 setters (types "", null, a, b), 1-2 getters, Open/Close and ForceClose are explored by TLC (type set once, first wins, * only after all writers closed, getter returns); every reachable state is reproduced on the real pipe under the forced schedule and GetDataType results compared.',
     'same hooks as C01; the lock-free read in the cancelled branch of GetDataType is modelled as reading the value before or after a concurrent set', 'DESIGN §6 C02')
+add('C26', 'model_checking',
+    'TLA+ spec NamedPipes.tla (registry + asynchronous close timers) model-checked by TLC (safety+liveness); state-graph paths replayed on a real pipes.Named with client goroutines and the real close-timer goroutines scheduled through gate hooks',
+    'TLC explores every interleaving of create/close/delete/get/dump by 2 clients over 2 names with up to 2 pending close timers (no crash, unique live names, stream never closed twice, closed pipe eventually gone, Get returns); every reachable state is then reproduced on the real registry: each step is one lock region of the real code, the real 2 s timers are held at a gate and fired where the behaviour says, and error results, Get results and the registry contents are compared after every step. A nil dereference or fatal map error kills the harness process and is attributed to the behaviour that caused it by re-running it alone.',
+    'gate hooks at every lock region of lang/pipes/namedpipes.go and after the timer sleep; std pipes only', 'DESIGN §6 C26')
+add('C27', 'model_checking',
+    'TLA+ spec Jobs.tla model-checked by TLC (ID stability as an action property, reuse rule, lookups); state-graph paths replayed on a real lang.NewJobs() table with lookups and listing compared after each step',
+    'All histories of add/terminate/garbage-collect/Get/GetLatest over up to 5 jobs are explored by TLC; each reachable state is reproduced on the real table and the listing (job ID -> process) and every lookup result are compared with the specification after every step.',
+    'sequential object (every operation is one mutex region); processes are bare lang.Process values whose terminated flag the harness sets', 'DESIGN §6 C27')
 
 
 def main():
